@@ -52,6 +52,7 @@ type Header struct {
 	Shapes    [][]SubJ          `json:"shapes"`
 	Views     [][6]int          `json:"views"`
 	Paints    map[string]PaintJ `json:"paints"`
+	Grads     []string          `json:"grads"`
 	Dashes    [][]float64       `json:"dashes"`
 	JoinLimit []int             `json:"joinlimit"`
 	ImgW      int               `json:"imgw"`
@@ -109,7 +110,17 @@ func paint(h *Header, name string) canvas.Paint {
 		return canvas.Paint{}
 	}
 	pm := h.Paints[name].Pm
-	return canvas.Paint{Color: color.RGBA{uint8(pm[0]), uint8(pm[1]), uint8(pm[2]), uint8(pm[3])}}
+	col := color.RGBA{uint8(pm[0]), uint8(pm[1]), uint8(pm[2]), uint8(pm[3])}
+	for _, g := range h.Grads {
+		if g == name { // a linear gradient across the page whose stops all have the colour
+			lg := canvas.NewLinearGradient(canvas.Point{X: 0, Y: 0}, canvas.Point{X: float64(h.W), Y: 0})
+			lg.Add(0.0, col)
+			lg.Add(0.5, col)
+			lg.Add(1.0, col)
+			return canvas.Paint{Gradient: lg}
+		}
+	}
+	return canvas.Paint{Color: col}
 }
 
 var (
